@@ -23,6 +23,7 @@ NONDET = [
     (r"RandomState::new|^rand::|getrandom", "randomness"),
     (r"Argument::<[^>]*>::new_pointer|as std::fmt::Pointer>::fmt|fmt::Pointer", "pointer formatting"),
     (r"^std::fs::|^std::net::", "file system / network"),
+    (r"std::sync::(Mutex|RwLock)(<|::)|sync::(poison::)?(mutex|rwlock)::|atomic::Atomic\w+::(fetch_\w+|store|swap|compare_exchange\w*)", "process-wide mutable state"),
 ]
 
 
@@ -161,6 +162,23 @@ def order_rules(ctx):
             obs.append(ob("C20.order/import/%s" % m, ok, ctx.where(f),
                           "import_group merges `%s` with %s" % (m, "overriding insert/extend, as add_tmpl/add_script do" if ok else "a keep-existing insertion (%s): importing is not equivalent to adding the files" % [x["m"] for x in guarded][:3]),
                           witness=None if ok else "two groups holding the same path with different content"))
+        # a flag of the imported group is merged from that group's own flag (it records what its files needed when they were
+        # added; re-deriving it from another field leaves out the files that field does not list)
+        pn_ = [x for x in f.param_names() if x and x != "self"]
+        for n in sir.walk(f.body):
+            tgt = None
+            if n.get("k") == "assign" and n["l"].get("k") == "field" and n["l"]["name"] in bool_fields and sir.expr_str(n["l"]["base"]) in ("self", "this"):
+                tgt, r = n["l"]["name"], n["r"]
+                parts = [sir.expr_str(x).replace(" ", "") for x in ([r["l"], r["r"]] if r.get("k") == "binary" and r["op"] == "||" else [r])]
+            elif n.get("k") == "binary" and n.get("op") == "|=" and n["l"].get("k") == "field" and n["l"]["name"] in bool_fields and sir.expr_str(n["l"]["base"]) in ("self", "this"):
+                tgt = n["l"]["name"]
+                parts = [sir.expr_str(n["r"]).replace(" ", "")]
+            if tgt is None:
+                continue
+            other = [p_ for p_ in parts if p_ != "self." + tgt]
+            same = bool(pn_) and other == ["%s.%s" % (pn_[0], tgt)]
+            obs.append(ob("C20.order/import/flag/%s" % tgt, same, ctx.where(f), "`%s` is merged from %s" % (tgt, other),
+                          witness=None if same else "a group whose only scripts are inline <wxs> blocks: imported, the WXS runtime is missing; added file by file, it is there"))
         # and the adders themselves override
         for name, m in (("add_tmpl", "trees"), ("add_script", "scripts")):
             g = [x for x in tc.fns if x.base == "TmplGroup" and x.name == name and x.body and "group" in x.module]
